@@ -109,7 +109,7 @@ prop('C10',
      'environments (excluded by the precondition of C11).')
 
 prop('C12',
-     [T.r12_a, S.r12_b, CV.t_agree, S.r12_c, S.r12_d, S.r12_e, L_MATH, T.r09_struct],
+     [T.r12_a, T.r12_f, S.r12_b, CV.t_agree, S.r12_c, S.r12_d, S.r12_e, L_MATH, T.r09_struct],
      'Assertions on the tokenizer dispatch table for $ / $$ / backslash-bracket windows, agreement of the kind <-> '
      'class <-> delimiter tables with the tokenizer, def-use rules on the math-region reader and the dispatcher, and '
      'table rules for operators and sizing commands.',
@@ -213,7 +213,7 @@ prop('C05',
      'the splice equation itself (the resulting text equals the original with the span substituted).')
 
 prop('C15',
-     [TR.r05_a, TR.r05_e, TR.r05_d, TR.r05_c, TR.r15_a, TR.r15_b, TR.r15_c, TR.r15_d],
+     [TR.r05_a, TR.r05_e, TR.r05_d, TR.r05_c, TR.r15_a, TR.r15_b, TR.r15_c, TR.r15_d, ISO.r17_g],
      'Effect (frame) analysis of the mutators, a no-memoisation rule on the views, a kind-flow analysis of what can '
      'enter a content list through the public mutators, and totality of the text view over those kinds.',
      'R05.a/c targeted look-up by identity and ordered multi-insert; R15.a a mutator writes only its receiver\'s '
@@ -223,7 +223,7 @@ prop('C15',
      'equivalence with a reference document model over edit histories.')
 
 prop('C17',
-     [ISO.r17_a, ISO.r17_b, ISO.r17_c, ISO.r17_d, ISO.r17_f, TR.r15_a, T.r17_e],
+     [ISO.r17_a, ISO.r17_b, ISO.r17_c, ISO.r17_d, ISO.r17_f, ISO.r17_g, TR.r15_a, T.r17_e],
      'Who-may-write rules over module-level objects, class attributes and default-argument objects; classification '
      'of every iteration over a constant set (folded by the analyser) as order-insensitive or first-match, with a '
      'prefix-freeness check of the folded elements; def-use of the entry points\' return values; provenance of tokens '
@@ -235,7 +235,7 @@ prop('C17',
      'equality of results across input forms (chunks, files) beyond the flattening step.')
 
 prop('C18',
-     [AR.r18_a, AR.r18_b, AR.r18_c, AR.r18_f, AR.r18_d, AR.r18_e],
+     [AR.r18_a, AR.r18_b, AR.r18_c, AR.r18_f, AR.r18_g, AR.r18_d, AR.r18_e],
      'Path-wise effect/typestate analysis of the TexArgs mutators (list proper vs. shadow sequence), signature '
      'comparison with list, and def-use of the serialisers.',
      'R18.a every named list operation is overridden and keeps the two sequences paired; R18.b the signatures accept '
